@@ -217,7 +217,7 @@ type ReencCase struct {
 	Item int     `json:"item"` // pre-order index of the CBOR item the re-encoding is applied to
 }
 
-var sigKinds = []string{"sig-ecdsa-n-minus-s", "sig-der-long-length", "sig-der-padded-int", "sig-der-trailing-byte"}
+var sigKinds = []string{"sig-ecdsa-n-minus-s", "sig-der-long-length", "sig-der-padded-int", "sig-der-trailing-byte", "sig-prepend-zero", "sig-append-zero", "sig-drop-leading-zero"}
 
 func curveN(a keys.Alg) *big.Int {
 	switch a {
@@ -236,6 +236,22 @@ func curveN(a keys.Alg) *big.Int {
 type ecdsaSig struct{ R, S *big.Int }
 
 func sigVariant(kind string, alg keys.Alg, sig []byte) ([]byte, bool) {
+	// byte-level variants that need no key and apply to every scheme (a verifier that pads, trims or ignores
+	// bytes of the signature accepts them)
+	switch kind {
+	case "sig-prepend-zero":
+		return append([]byte{0x00}, sig...), true
+	case "sig-append-zero":
+		if alg == keys.P256 || alg == keys.P384 || alg == keys.P521 {
+			return nil, false // = sig-der-trailing-byte, a listed finding for the NIST curves
+		}
+		return append(append([]byte{}, sig...), 0x00), true
+	case "sig-drop-leading-zero":
+		if len(sig) < 2 || sig[0] != 0x00 {
+			return nil, false
+		}
+		return append([]byte{}, sig[1:]...), true
+	}
 	n := curveN(alg)
 	if n == nil {
 		return nil, false
@@ -277,7 +293,7 @@ func buildVariant(rc ReencCase, sealed []byte) (variant []byte, ok bool) {
 	case "extra-element":
 		root.Items = append(root.Items, cbor.Uint(0))
 		return root.Bytes(), true
-	case "sig-ecdsa-n-minus-s", "sig-der-long-length", "sig-der-padded-int", "sig-der-trailing-byte":
+	case "sig-ecdsa-n-minus-s", "sig-der-long-length", "sig-der-padded-int", "sig-der-trailing-byte", "sig-prepend-zero", "sig-append-zero", "sig-drop-leading-zero":
 		sig, ok := sigVariant(rc.Kind, rc.Tok.Issuer().Alg, root.Items[0].Data)
 		if !ok {
 			return nil, false
@@ -336,7 +352,7 @@ func runReenc(c *h.Ctx, rc ReencCase) {
 		var derr error
 		if pn, pv, _ := h.Try(func() { got, derr = dc.f() }); pn {
 			c.P.PanicSeen()
-			c.Logf("%s panicked on a re-encoded token: %v", dc.name, pv)
+			c.Fail("C08/panic/"+rc.Kind, "%s panicked on a re-encoded token (neither rejected nor accepted under the same CID): %v\n variant %x", dc.name, pv, variant)
 			continue
 		}
 		if derr != nil {
@@ -370,6 +386,9 @@ var reencProp = h.Define(P, "reencode", func(t *rapid.T) ReencCase {
 	kind := rapid.SampledFrom(allKinds).Draw(t, "kind")
 	if len(kind) > 4 && kind[:4] == "sig-" {
 		algs = []keys.Alg{keys.Secp256k1, keys.P256, keys.P384, keys.P521}
+		if kind == "sig-prepend-zero" || kind == "sig-append-zero" || kind == "sig-drop-leading-zero" {
+			algs = keys.AllAlgs
+		}
 	}
 	return ReencCase{Tok: tok.Gen(t, tok.GenCfg{Algs: algs, NoTopNull: true, OnlyFuture: true, Values: val.Cfg{Depth: 2, MaxLen: 3, SafeInts: true}}),
 		Kind: kind, Item: rapid.IntRange(0, 400).Draw(t, "item")}
@@ -591,3 +610,38 @@ var concAddrProp = h.Define(P, "concaddr", func(t *rapid.T) ConcAddr {
 }, runConcAddr)
 
 func TestConcurrentAddress(t *testing.T) { concAddrProp.Check(t) }
+
+
+// TestSignatureLeadingZero: tokens are searched (by nonce) until the signature's first byte is zero - about one
+// in 256 for RSA and Ed25519 - and the signature is then re-encoded without that byte: the shorter byte string
+// must be rejected or get the same CID.
+func TestSignatureLeadingZero(t *testing.T) {
+	for _, alg := range []keys.Alg{keys.RSA, keys.Ed25519} {
+		found := 0
+		for i := 0; i < 6000 && found < 2; i++ {
+			d := tok.Tok{Dlg: &tok.Dlg{Iss: tok.KeyRef{Alg: alg, Idx: found % 2}, Aud: tok.KeyRef{Alg: keys.Ed25519, Idx: 1}, Sub: "iss", Cmd: "/foo",
+				Nonce: []byte(fmt.Sprintf("nonce-%08d", i))}}
+			tk, priv, err := tok.Build(d)
+			if err != nil {
+				t.Fatalf("INCONCLUSIVE %v", err)
+			}
+			sealed, _, err := tk.(*delegation.Token).ToSealed(priv)
+			if err != nil {
+				t.Fatalf("INCONCLUSIVE %v", err)
+			}
+			root, _, err := cbor.Parse(sealed)
+			if err != nil || len(root.Items) != 2 {
+				t.Fatalf("INCONCLUSIVE cannot parse a sealed token")
+			}
+			if sig := root.Items[0].Data; len(sig) == 0 || sig[0] != 0x00 {
+				continue
+			}
+			found++
+			reencProp.One(t, ReencCase{Tok: d, Kind: "sig-drop-leading-zero"})
+		}
+		if found == 0 {
+			t.Fatalf("INCONCLUSIVE no %s signature with a leading zero byte found", alg)
+		}
+		P.ClassN("leading-zero-signature:"+string(alg), found)
+	}
+}
